@@ -1,0 +1,17 @@
+//go:build verif
+// +build verif
+
+package backend
+
+import "time"
+
+// VerifSetRetryIntervals overrides the async retry timing (read by NewBackend).
+func VerifSetRetryIntervals(retry, check time.Duration) {
+	retryInterval = retry
+	checkInterval = check
+}
+
+// VerifSetEventsTTL overrides the TTL (seconds) of event keys (read by NewBackend and create).
+func VerifSetEventsTTL(seconds int64) {
+	eventsTTL = seconds
+}
